@@ -102,7 +102,9 @@ def alternative_serialisers(obj, s, clsname):
     base = _et_shape(ET.fromstring(s))
     routes = [('element_to_extension_element', lambda: element_to_extension_element(obj).to_string()),
               ('to_string(nspair)', lambda: obj.to_string(dict(NSPAIR))),
-              ('to_string_force_namespace', lambda: obj.to_string_force_namespace(dict(NSPAIR)))]
+              ('to_string_force_namespace', lambda: obj.to_string_force_namespace(dict(NSPAIR))),
+              # prefixes of the form ns<digits> are what ElementTree hands out itself; a caller may still ask for them (nsprefix option of the request builders)
+              ('to_string(ns-numbered nspair)', lambda: obj.to_string({'ns0': NSPAIR['samlp'], 'ns1': NSPAIR['saml'], 'ns2': NSPAIR['md']}))]
     for name, f in routes:
         try:
             alt = f()
@@ -223,6 +225,9 @@ def foreign_content(spec, s, inject):
     inner = ET.SubElement(f, '{%s}inner' % FOREIGN)
     inner.text = u'deep \xe9'
     ET.SubElement(ET.SubElement(inner, '{%s}deeper' % FOREIGN), 'deepest').set('a', 'b')
+    # XML names may contain '-', '.', the middle dot and non-ASCII letters
+    for nm in (u'assurance-level', u'idp.policy', u'a\xb7b', u'\xe9l\xe9ment', u'contact-type', u'contact-mail', u'_x'):
+        ET.SubElement(f, u'{%s}%s' % (FOREIGN, nm)).set(u'data-x.y', nm)
     g = ET.SubElement(target, 'nonamespace')
     g.text = 'q'
     same_local = None
